@@ -48,7 +48,8 @@ META = dict(
               "run on *tokenised corpus files* (every decimal number of a fixture replaced by a symbolic token): each "
               "dimensional attribute element must be (unit factor) x (one file number) with the factor the format "
               "prescribes; layout-writer files for sdf, pdb, gro, mol2, xyz, extxyz, poscar, chgcar, locpot, cube, crd are "
-              "checked with CODATA-2018 constants in C03 (tolerance 1e-7); writers follow from C02 (reader o writer = id); "
+              "checked with CODATA-2018 constants by the harnesses of C03, which this check runs as well (jobs layout[...], "
+              "tolerance 1e-7); writers follow from C02 (reader o writer = id); "
               "writing in a format with other units leaves the object's own values untouched (units-after-dump, 12 formats)",
         thorough="19 further corpus files of the same formats (cp2k, gromacs, fchk, wfn, wfx, qchem, gaussian input, mwfn, extxyz)"),
     outside=["attribute elements that are not affine in a single file number (reported as undecided)",
@@ -270,6 +271,23 @@ def jobs(tier):
                         ("molden", 2, "ecp"), ("json", 3, "full")):
         out.append(job("C04", f"units-after-dump[{fmt}]", M, "h_units_after_dump", dict(fmt=fmt, natom=n, variant=var), max_validate=2,
                        max_paths=200))
+    # files in the published layouts (independent writers of C03): every dimensional quantity with its unit factor
+    C3 = "harness.c03"
+    for name, fn, params in (
+            ("gro-triclinic", "h_gro", dict(natom=2, nframes=1, vel=True, triclinic=True, time=True)),
+            ("extxyz", "h_xyz", dict(nframes=2, ext=True)), ("xyz", "h_xyz", dict(nframes=1, ext=False)),
+            ("poscar-cartesian", "h_vasp", dict(kind="poscar", direct=False, selective=False)),
+            ("chgcar-direct", "h_vasp", dict(kind="chgcar", direct=True, selective=False)),
+            ("locpot", "h_vasp", dict(kind="locpot", direct=True, selective=False)),
+            ("cube", "h_cube", dict(shape=[1, 2, 7])), ("crd", "h_crd", dict(natom=2)), ("sdf", "h_sdf", dict(natom=3, nbond=2)),
+            ("pdb", "h_pdb", dict(natom=3, big=False)), ("mol2", "h_mol2", dict(natom=3)),
+            ("fchk", "h_fchk", dict(basis="sp", spin="restricted", props=True)), ("mwfn", "h_mwfn", dict(dtype=2, spin="restricted")),
+            ("gaussian-input", "h_gaussian_input", dict(natom=2, nlink0=1, nroute=1, ntitle=1)),
+            ("molden-angs", "h_molden_layout", dict(fmt="molden", dkind="c", unit="Angs", spin="restricted")),
+            ("molekel", "h_molden_layout", dict(fmt="molekel", dkind="c", unit="AU", spin="restricted")),
+            ("gamess-punch", "h_gamess", dict(natom=2)), ("wfx", "h_wfx", dict(order="standard-p", nprim=1)),
+            ("fchk-trajectory", "h_fchk_trajectory", dict(kind="Opt", npoint=2))):
+        out.append(job("C04", f"layout[{name}]", C3, fn, params, budget_s=300, max_validate=2, max_paths=300))
     out.append(job("C04", "molden-units[twin]", M, "h_molden_units", dict(unit="AU", twin=True), expect="cex", max_validate=0))
     out.append(job("C04", "corpus[twin]", M, "h_corpus",
                    dict(fmt="charmm", fn="crambin.crd", units={"atcoords": "angstrom"}, twin=True), expect="cex",
